@@ -1,4 +1,4 @@
-#!/bin/sh
+#!/bin/bash
 # tools/soak.sh <tier> <seed>...  — build, then run every check on the unchanged tree for each seed; prints one line per run
 tier="$1"; shift
 cd "$(dirname "$0")/.." || exit 2
